@@ -35,6 +35,7 @@ type histEv struct {
 	Res     [][]int `json:"-"`
 	ResQ    []int   `json:"-"`
 	ResAny  any     `json:"res"`
+	Fresh   bool    `json:"fresh"`
 	MQ      []int   `json:"mq"` // pattern: ids of the known queries that contain the pattern
 	Total   int     `json:"total"`
 	Unique  int     `json:"unique"`
@@ -216,7 +217,11 @@ func (d *histDriver) add(q string) {
 				ev.Note = fmt.Sprint(r)
 			}
 		}()
+		t0 := time.Now()
 		d.h.AddEntry(q, len(q)%7, "ctx"+fmt.Sprint(len(q)%2), time.Duration(len(q))*time.Millisecond)
+		if n := len(d.h.Entries); n > 0 {
+			ev.Fresh = !d.h.Entries[n-1].Timestamp.Before(t0) // the newest entry is stamped with this search, a repeated query included
+		}
 	}()
 	if !ev.Panic && len(d.h.Entries) > 0 {
 		ev.ID = d.eid(d.h.Entries[len(d.h.Entries)-1])
@@ -455,6 +460,27 @@ func histRandom(args []string) int {
 				}
 			}
 		}
+	}
+	// a history file of well over a megabyte (a few entries with very long queries), loaded, extended, saved and loaded again
+	{
+		d.newTrace()
+		big1, big2 := strings.Repeat("w ", 300000), strings.Repeat("kk ", 250000)
+		d.opNew(5)
+		d.setFile("missing", 0, nil, nil)
+		d.tsMode = 0
+		d.setFile("valid", 5, []string{big1, "list files", big2}, nil)
+		d.load()
+		d.stats()
+		d.add("after the big ones")
+		d.save()
+		d.opNew(5)
+		d.load()
+		d.recent(3)
+		d.add(big1[:900])
+		d.save()
+		d.opNew(5)
+		d.load()
+		d.stats()
 	}
 	d.w.close()
 	fmt.Printf("{\"traces\": %d, \"events\": %d}\n", *ntr, d.w.n)
